@@ -68,7 +68,6 @@ Ref(l, a) == CASE a.op = "settext" -> RefSetText(l, a.qs)
 \* ---- contract ---------------------------------------------------------------------------------
 Silent(l, a) ==   \* inputs the property does not speak about
     \/ a.op = "setitem" /\ ~(a.i \in 1..Len(l))
-    \/ a.op = "settext" /\ Range(a.qs) \cap BadQs = {} /\ HasAll(MapCanon(a.qs)) /\ \E i \in 1..Len(a.qs) : ~Simple(CanonQ(a.qs[i]))
     \/ a.op \in {"append", "setitem"} /\ ~IsBadQ(a.q) /\ CanonQ(a.q) = "all" /\ \E i \in 1..Len(l) : ~Simple(l[i])
     \/ a.op = "setitem" /\ ~IsBadQ(a.q) /\ ~Simple(CanonQ(a.q)) /\ HasAll(l)
 \* mode = "raise": a rejection is a DOM exception;  mode = "log" (what parseString uses): a rejection is
